@@ -339,9 +339,14 @@ fn get_node_tag<'i>(
 }
 
 fn consume_expr<'i>(
-    pairs: Peekable<Pairs<'i, Rule>>,
+    mut pairs: Peekable<Pairs<'i, Rule>>,
     pratt: &PrattParser<Rule>,
 ) -> Result<ParserNode<'i>, Vec<Error<Rule>>> {
+    // The grammar allows a leading `|` in every expression, also inside parentheses and PUSH.
+    if pairs.peek().map(|pair| pair.as_rule()) == Some(Rule::choice_operator) {
+        pairs.next();
+    }
+
     fn unaries<'i>(
         mut pairs: Peekable<Pairs<'i, Rule>>,
         pratt: &PrattParser<Rule>,
